@@ -3,6 +3,7 @@ import NirVerif.Model.Graph
 import NirVerif.Model.FS
 import NirVerif.Generated.LifExactFloat
 import NirVerif.Generated.CubaRefFloat
+import NirVerif.Model.EventLoop
 /-
   Line-protocol driver: one JSON request per line on stdin, one JSON reply per line on
   stdout.  Imports Model / Spec / Generated only (no Mathlib), so it builds as a native exe.
@@ -121,6 +122,33 @@ def handle (j : Json) : Except String Json := do
       pure (Json.mkObj [("advance", .str (floatToHex adv)),
         ("next", match nxt with | some t => .str (floatToHex t) | none => .null), ("reset", .str (floatToHex rst))])
     | _ => throw "lif_kernel arity"
+  | "lif_events" =>
+    -- the event loop of lif_exact_sim.py on Float: hand-written loop around the generated kernels
+    let fl (k : String) : Except String Float := do floatOfHex (← (← j.getObjVal? k).getStr?)
+    let fls (k : String) : Except String (List Float) := do
+      (← (← j.getObjVal? k).getArr?).toList.mapM fun x => do floatOfHex (← x.getStr?)
+    let tau ← fl "tau"; let r ← fl "r"; let vl ← fl "v_leak"; let vt ← fl "v_threshold"
+    let v0 ← fl "v0"; let dur ← fl "duration"
+    let recDt ← match j.getObjVal? "record_dt" with
+      | .ok .null => pure none
+      | .ok x => do pure (some (← floatOfHex (← x.getStr?)))
+      | .error _ => pure none
+    let times ← fls "times"; let amps ← fls "amps"
+    let fuel ← (← j.getObjVal? "fuel").getNat?
+    let inputs := times.zip amps
+    let K : EventLoop.Kern Float :=
+      ⟨Generated.LifFloat.advance tau r vl vt, Generated.LifFloat.nextSpikeTime tau r vl vt,
+       Generated.LifFloat.applyReset tau r vl vt⟩
+    match EventLoop.init (0.0 : Float) v0 inputs recDt with
+    | none => pure (Json.mkObj [("err", .str "IndexError")])
+    | some s0 =>
+      match EventLoop.run K inputs recDt dur fuel s0 with
+      | none => pure (Json.mkObj [("err", .str "Other")])
+      | some s =>
+        pure (Json.mkObj [("spikes", .arr (s.spikes.map fun x => Json.str (floatToHex x)).toArray),
+          ("times", .arr (s.recs.map fun x => Json.str (floatToHex x.1)).toArray),
+          ("voltages", .arr (s.recs.map fun x => Json.str (floatToHex x.2)).toArray),
+          ("v", .str (floatToHex s.v))])
   | "cuba_kernel" =>
     let a ← (← (← j.getObjVal? "args").getArr?).toList.mapM fun x => do floatOfHex (← x.getStr?)
     match a with
